@@ -109,14 +109,17 @@ mod v_iface_route {
         let r0 = any_route();
         let r1 = any_route();
         let mut routes = Routes::new();
-        routes.update(|v| {
-            if n >= 1 {
+        // (each case pushes at a concrete length)
+        match n {
+            0 => {}
+            1 => routes.update(|v| {
                 v.push(r0).unwrap();
-            }
-            if n >= 2 {
+            }),
+            _ => routes.update(|v| {
+                v.push(r0).unwrap();
                 v.push(r1).unwrap();
-            }
-        });
+            }),
+        }
         let a = any_addr();
         kani::assume(a.is_unicast());
         let got = routes.lookup(&a, now);
@@ -155,14 +158,17 @@ mod v_iface_route {
         // stated pre-condition: at most one default route (what add_default_* maintains; `update` could push duplicates)
         kani::assume(!(n == 2 && is_default(&r0) && is_default(&r1)));
         let mut routes = Routes::new();
-        routes.update(|v| {
-            if n >= 1 {
+        // (each case pushes at a concrete length)
+        match n {
+            0 => {}
+            1 => routes.update(|v| {
                 v.push(r0).unwrap();
-            }
-            if n >= 2 {
+            }),
+            _ => routes.update(|v| {
+                v.push(r0).unwrap();
                 v.push(r1).unwrap();
-            }
-        });
+            }),
+        }
         let d0 = n >= 1 && is_default(&r0);
         let d1 = n >= 2 && is_default(&r1);
         let gw = any_addr();
